@@ -8,6 +8,7 @@ FLAVOURS = {
     "stack": {"cxx": ["clang++", "-std=c++17", "-O1", "-g", "-w"]},
     "tsan": {"cxx": ["clang++", "-std=c++17", "-O1", "-g", "-fsanitize=thread", "-w"], "libs": ["-lpthread"]},
     "sanmt": {"cxx": SAN, "libs": ["-lpthread"]},
+    "sanuchar": {"cxx": SAN + ["-funsigned-char"]},  # plain char unsigned, as on ARM / ESP / RISC-V targets
 }
 
 PROPS = {}
